@@ -163,7 +163,7 @@ func Tally(
 	for _, v := range votes {
 		// Filter votes winners & abstain voters
 		isInsideSpread := v.ExchangeRate.GTE(weightedMedian.Sub(rewardSpread)) &&
-			v.ExchangeRate.LTE(weightedMedian.Add(rewardSpread))
+			v.ExchangeRate.Sub(rewardSpread).LTE(weightedMedian) // == rate <= median+spread, cannot leave the Dec range
 		isAbstainVote := !v.ExchangeRate.IsPositive() // strictly less than zero, don't want to include zero
 		isMiss := !isInsideSpread && !isAbstainVote
 
